@@ -1,6 +1,6 @@
 """Mutations of the C19 mechanism (development self-test).  Usage (cwd = scratch copy of /repo, done by tools/mutate.sh):
     MUTNAME=<name> tools/mutate.sh C19 harness/c19_mutations.py
-m*: first pass, n*/b*: second pass (names / buffering).  n1, n2 need the repaired tree (fixes/C19-name-fn.diff applied to
+m*: first pass, n*/b*: second pass (names / buffering), q*: third pass (object state, custom triples, path separators).  n1, n2 need the repaired tree (fixes/C19-name-fn.diff applied to
 the copy first: MUTNAME=fix+n2) and the switch in `repaired` (tools/c19_switch.py)."""
 import os
 import sys
@@ -22,6 +22,16 @@ M = {
     "n2": (PAR, 'return f"{k!r}.p"', 'return f"{str(k)!r}.p"'),
     "n3": (PAR, 'return f"{k}.p"', 'return f"{k}.p".lower()'),
     "n4": (PAR, 'return f"{k}.p"', 'return f"{k}.p".replace(" ", "")'),
+    # q2: a naive repair of the path separator: 'ATP/ADP' and 'ATP_ADP' share a file
+    "q2": (PAR, 'return f"{k!r}.p"', 'return f"{k!r}.p".replace("/", "_")'),
+    # q3: negative caching at module level: a name once seen missing is recomputed for ever in this process
+    "q3": (PAR, "        if file.exists():\n", "        if file not in _MISSING and file.exists():\n"),
+    "q3b": (PAR, "        res = fn(v)\n        cache.save_fn(file, res)\n", "        _MISSING.add(file)\n        res = fn(v)\n        cache.save_fn(file, res)\n"),
+    "q3c": (PAR, "def _pickle_name(", "_MISSING: set = set()\n\n\ndef _pickle_name("),
+    # q5: the cached branch ignores the user's load_fn
+    "q5": (PAR, "cast(Tout, cache.load_fn(file))", "cast(Tout, _pickle_load(file))"),
+    # q6: save_fn handed a sibling path, renamed afterwards
+    "q6": (PAR, "        cache.save_fn(file, res)\n", '        cache.save_fn(file.with_name(file.name + ".part"), res)\n        os.replace(file.with_name(file.name + ".part"), file)\n'),
     "b2": (PAR, SAVE_TAIL, '    fp = tmp.open("wb")\n    pickle.dump(data, fp)\n    os.replace(tmp, file)\n    fp.close()\n'),
 }
 
